@@ -72,6 +72,7 @@ type pageRow struct {
 // pageReq is one QUERY/EXECUTE the node received for a scripted query.
 type pageReq struct {
 	s         *pageScript
+	g         *pageExec
 	page      int
 	sc        *node.SConn
 	reply     *node.Reply
@@ -118,19 +119,45 @@ type pageScript struct {
 	boundary map[int]bool // number of rows consumed at which the next call switches pages
 	cumEnd   []int        // cumEnd[p] = rows in pages 0..p
 
-	// node side (root goroutine only)
+	// re-execution of the kept *gocql.Query value (non-manual queries only)
+	reexec    bool
+	consumer2 int
+	abandonAt int // >0: the first iteration stops after this many rows, just behind a page switch
+	faultGen  int // which execution the injected failure hits
+
+	// guarded by pageRun.mu: written by the tasks, read by the root goroutine
+	seen   int
+	inCall bool
+	cur    *pageExec // the execution requests arriving now belong to
+	execs  []*pageExec
+}
+
+// pageExec is what the node observed about one execution of a query. Executing the same
+// Query value again starts a new one: the page bookkeeping begins afresh.
+type pageExec struct {
+	idx int
+
+	// root goroutine only
 	reqs          []*pageReq
 	first         *cqlspec.Request
 	requested     map[int]bool
 	lastDelivered bool
 
-	// guarded by pageRun.mu: written by the tasks, read by the root goroutine ...
-	seen   int
-	inCall bool
-	// ... and written by the root goroutine, read by the tasks
+	// guarded by pageRun.mu: written by the root goroutine, read by the tasks
 	failedPage int // first page whose fetch was made to fail (-1 none)
 	latePage   int // first page whose reply came only after the request timeout (-1 none)
 	reqLog     string
+}
+
+// newExec starts the next execution of s (task goroutine, or the root before the tasks run).
+func (pr *pageRun) newExec(s *pageScript) *pageExec {
+	pr.mu.Lock()
+	defer pr.mu.Unlock()
+	g := &pageExec{idx: len(s.execs), requested: map[int]bool{}, failedPage: -1, latePage: -1}
+	s.execs = append(s.execs, g)
+	s.cur = g
+	s.seen = 0
+	return g
 }
 
 func (s *pageScript) last() int { return len(s.pages) - 1 }
@@ -182,7 +209,7 @@ func pageState(tp *kernel.Tape, token string, next int) []byte {
 }
 
 func (pr *pageRun) drawScript(tp *kernel.Tape, ti, oi, qid, proto int) *pageScript {
-	s := &pageScript{token: fmt.Sprintf("tok-%d-%d", ti, oi), qid: qid, faultPage: -1, failedPage: -1, latePage: -1, requested: map[int]bool{}, boundary: map[int]bool{}}
+	s := &pageScript{token: fmt.Sprintf("tok-%d-%d", ti, oi), qid: qid, faultPage: -1, boundary: map[int]bool{}}
 	s.stmt = "ECHO '" + s.token + "'"
 	nPages := 1 + tp.Next(6)
 	// page size: not set (session default 5000), 1, 5, 5000, 0 (no page size on the wire)
@@ -291,7 +318,29 @@ func (pr *pageRun) drawScript(tp *kernel.Tape, ti, oi, qid, proto int) *pageScri
 			pr.byState[string(st)] = pageStateRef{s.token, p + 1}
 		}
 	}
+	if !s.manual && tp.Chance(1, 4) {
+		s.reexec = true
+		s.consumer2 = tp.Weighted([]int{3, 2, 2, 1})
+		if s.consumer2 == pageConsSliceMap {
+			s.prefetchSet, s.prefetch = true, 0 // the Query value, and so its prefetch, is shared
+		}
+		if s.faultKind != pageFaultNone {
+			s.faultGen = tp.Next(2)
+		}
+		// the abandoned variant: stop just behind a page switch, i.e. after the first row
+		// of a later page
+		var behind []int
+		for p := 1; p < nPages; p++ {
+			if len(s.pages[p]) > 0 {
+				behind = append(behind, s.cumEnd[p-1]+1)
+			}
+		}
+		if s.consumer != pageConsSliceMap && len(behind) > 0 && tp.Chance(1, 2) {
+			s.abandonAt = behind[tp.Next(len(behind))]
+		}
+	}
 	pr.scripts[s.token] = s
+	pr.newExec(s)
 	return s
 }
 
@@ -314,6 +363,9 @@ func (s *pageScript) describe() string {
 	f := ""
 	if s.faultKind != pageFaultNone {
 		f = fmt.Sprintf(" fault=%d@p%d", s.faultKind, s.faultPage)
+	}
+	if s.reexec {
+		f += fmt.Sprintf(" reexec=%s abandon=%d faultexec=%d", pageConsNames[s.consumer2], s.abandonAt, s.faultGen)
 	}
 	return fmt.Sprintf("%s rows=[%s] pagesize=%s prefetch=%s prepared=%v noskip=%v consumer=%s%s%s",
 		s.token, strings.Join(rows, ","), ps, pf, s.prepared, s.noSkip, pageConsNames[s.consumer], m, f)
@@ -388,9 +440,13 @@ func (pr *pageRun) app(sc *node.SConn, rec *node.ReqRec) {
 	k.Rec("page-req %s p%d conn=%s", token, page, sc.C.Name)
 
 	pr.mu.Lock()
-	inCall := s.inCall
+	inCall, g := s.inCall, s.cur
 	pr.mu.Unlock()
-	req := &pageReq{s: s, page: page, sc: sc, recvAt: k.SimTime(), async: !inCall}
+	req := &pageReq{s: s, g: g, page: page, sc: sc, recvAt: k.SimTime(), async: !inCall}
+	which := ""
+	if g.idx > 0 {
+		which = fmt.Sprintf(" (execution %d of the same Query value)", g.idx+1)
+	}
 	if page > 0 && !s.manual {
 		if req.async {
 			k.Probe("next-page-requested-by-prefetch")
@@ -401,28 +457,33 @@ func (pr *pageRun) app(sc *node.SConn, rec *node.ReqRec) {
 
 	// ---- node-side oracle ----
 	switch {
-	case s.manual && len(s.reqs) >= 1:
-		k.Violate("C15", "C15/manual-paging-fetched-more", "query %s was given a page state by the caller (automatic paging disabled) but the driver sent a second request (page %d) after the one for page %d", token, page, s.reqs[0].page)
+	case s.manual && len(g.reqs) >= 1:
+		k.Violate("C15", "C15/manual-paging-fetched-more", "query %s was given a page state by the caller (automatic paging disabled) but the driver sent a second request (page %d) after the one for page %d", token, page, g.reqs[0].page)
 	case s.manual && page != s.manualPage:
 		k.Violate("C15", "C15/wrong-paging-state", "query %s: the caller supplied the state of page %d, the request asks for page %d (paging state %q)", token, s.manualPage, page, rq.Params.PagingState)
-	case s.lastDelivered:
-		k.Violate("C15", "C15/request-after-last-page", "query %s: request for page %d arrived after the driver had received page %d, which has no has_more_pages flag", token, page, s.last())
-	case s.requested[page]:
-		k.Violate("C15", "C15/page-requested-twice", "query %s: page %d was requested a second time (retries are off; requests so far: %s)", token, page, s.reqsText())
-	case s.first == nil && !s.manual && page != 0:
-		k.Violate("C15", "C15/wrong-paging-state", "query %s: the first request already carries a paging state (page %d)", token, page)
-	case s.first != nil:
-		if d := pageReqDiff(s.first, rq, s.tsMode == 1); d != "" {
-			k.Violate("C15", "C15/next-page-request-differs", "query %s: the request for page %d differs from the first request (page %d) in more than the paging state: %s", token, page, s.reqs[0].page, d)
+	case g.lastDelivered:
+		k.Violate("C15", "C15/request-after-last-page", "query %s%s: request for page %d arrived after the driver had received page %d, which has no has_more_pages flag", token, which, page, s.last())
+	case g.requested[page]:
+		k.Violate("C15", "C15/page-requested-twice", "query %s%s: page %d was requested a second time (retries are off; requests so far: %s)", token, which, page, g.reqsText())
+	case g.first == nil && !s.manual && page != 0:
+		k.Violate("C15", "C15/wrong-paging-state", "query %s%s: the caller supplied no page state, yet the first request of the execution carries the paging state %q (the one page %d carried, i.e. it asks for page %d)", token, which, rq.Params.PagingState, page-1, page)
+	case g.first != nil:
+		if d := pageReqDiff(g.first, rq, s.tsMode == 1); d != "" {
+			k.Violate("C15", "C15/next-page-request-differs", "query %s%s: the request for page %d differs from the first request (page %d) in more than the paging state: %s", token, which, page, g.reqs[0].page, d)
+		}
+	case g.idx > 0 && s.execs[0].first != nil:
+		// executing the same Query value again must ask the same question again
+		if d := pageReqDiff(s.execs[0].first, rq, s.tsMode == 1); d != "" {
+			k.Violate("C15", "C15/re-executed-query-request-differs", "query %s%s: its first request differs from the first request of the first execution: %s", token, which, d)
 		}
 	}
-	if s.first == nil {
-		s.first = rq
+	if g.first == nil {
+		g.first = rq
 	}
-	s.requested[page] = true
-	s.reqs = append(s.reqs, req)
+	g.requested[page] = true
+	g.reqs = append(g.reqs, req)
 	pr.mu.Lock()
-	s.reqLog = s.reqsText()
+	g.reqLog = g.reqsText()
 	pr.mu.Unlock()
 	if page >= len(s.pages) {
 		cl.SendError(sc, rec, cqlspec.ErrInvalid, "page out of range", node.Hold)
@@ -430,7 +491,7 @@ func (pr *pageRun) app(sc *node.SConn, rec *node.ReqRec) {
 	}
 
 	// ---- the failing page ----
-	if pr.faults && s.faultPage == page && s.faultKind != pageFaultNone {
+	if pr.faults && s.faultPage == page && s.faultKind != pageFaultNone && s.faultGen == g.idx {
 		pr.markFailed(req)
 		if page > 0 {
 			k.Probe("error-on-page>0")
@@ -475,8 +536,8 @@ func (pr *pageRun) app(sc *node.SConn, rec *node.ReqRec) {
 func (pr *pageRun) markFailed(rq *pageReq) {
 	rq.failed = true
 	pr.mu.Lock()
-	if rq.s.failedPage < 0 {
-		rq.s.failedPage = rq.page
+	if rq.g.failedPage < 0 {
+		rq.g.failedPage = rq.page
 	}
 	pr.mu.Unlock()
 }
@@ -507,18 +568,18 @@ func (pr *pageRun) sweep() {
 				rq.late = true
 				k.Probe("reply-after-request-timeout")
 				pr.mu.Lock()
-				if s.latePage < 0 {
-					s.latePage = rq.page
+				if rq.g.latePage < 0 {
+					rq.g.latePage = rq.page
 				}
 				pr.mu.Unlock()
 			}
 			if !rq.failed && rq.page == s.last() && !s.manual {
-				s.lastDelivered = true
+				rq.g.lastDelivered = true
 			}
-			if rq.async && rq.page > 0 && !s.manual {
-				pr.mu.Lock()
-				seen := s.seen
-				pr.mu.Unlock()
+			pr.mu.Lock()
+			seen, current := s.seen, s.cur == rq.g
+			pr.mu.Unlock()
+			if rq.async && rq.page > 0 && !s.manual && current {
 				if seen < s.cumEnd[rq.page-1] {
 					k.Probe("prefetch-arrived-before-page-end")
 					if seen == s.cumEnd[rq.page-1]-1 {
@@ -552,9 +613,9 @@ func (s *pageScript) statesText() string {
 	return strings.Join(parts, " ")
 }
 
-func (s *pageScript) reqsText() string {
+func (g *pageExec) reqsText() string {
 	var parts []string
-	for _, r := range s.reqs {
+	for _, r := range g.reqs {
 		parts = append(parts, fmt.Sprintf("p%d@%s", r.page, r.sc.C.Name))
 	}
 	return strings.Join(parts, " ")
@@ -747,39 +808,74 @@ func (pr *pageRun) rowStep(t *kernel.Task, s *pageScript, n int) bool {
 	return t.Step(fmt.Sprintf("scan %s #%d", s.token, n))
 }
 
-// runQuery performs one scripted query. It returns false when the workload must stop.
+// runQuery performs one scripted query: one iteration and, for a share of the queries, a
+// second execution of the same *gocql.Query value (no new Session.Query, no Bind, no
+// WithContext, no Release in between), after a complete first iteration or after one that
+// was abandoned just behind a page switch. It returns false when the workload must stop.
 func (pr *pageRun) runQuery(t *kernel.Task, sess *gocql.Session, s *pageScript) bool {
 	k := pr.k
-	if !t.Step("iter " + s.token) {
+	q := pr.buildQuery(sess, s)
+	pr.mu.Lock()
+	g := s.cur
+	pr.mu.Unlock()
+	if !pr.iterate(t, s, g, q, s.consumer, s.abandonAt) {
 		return false
 	}
-	q := pr.buildQuery(sess, s)
+	if !s.reexec {
+		return true
+	}
+	// an abandoned iteration may have left a prefetch behind: its request belongs to the
+	// first execution, so it must have come and gone before the second one starts
+	if !pr.waitNoPrefetch() {
+		return false
+	}
+	g2 := pr.newExec(s)
+	k.Rec("re-execute %s", s.token)
+	if !pr.iterate(t, s, g2, q, s.consumer2, 0) {
+		return false
+	}
+	return true
+}
+
+// iterate executes q once and consumes the result with the given consumer; abandonAt > 0
+// stops after that many rows. It returns false when the workload must stop.
+func (pr *pageRun) iterate(t *kernel.Task, s *pageScript, g *pageExec, q *gocql.Query, consumer, abandonAt int) bool {
+	k := pr.k
+	if !t.Step(fmt.Sprintf("iter %s x%d", s.token, g.idx+1)) {
+		return false
+	}
 	pr.setInCall(s, true)
 	iter := q.Iter()
 	pr.setInCall(s, false)
-	k.Rec("iter %s returned numrows=%d", s.token, iter.NumRows())
+	k.Rec("iter %s x%d returned numrows=%d", s.token, g.idx+1, iter.NumRows())
 
 	var got []pageRow
 	var err error
-	complete := false
+	complete, abandoned := false, false
 	record := func(r pageRow) {
 		got = append(got, r)
 		pr.mu.Lock()
 		s.seen = len(got)
 		pr.mu.Unlock()
 	}
-	runaway := func() bool { return len(got) > len(s.expect)+2 }
+	more := func() bool {
+		if abandonAt > 0 && len(got) >= abandonAt {
+			abandoned = true
+			return false
+		}
+		return len(got) <= len(s.expect)+2
+	}
 
-	switch s.consumer {
+	switch consumer {
 	case pageConsScan, pageConsMapScan:
-		for !runaway() {
+		for more() {
 			if !pr.rowStep(t, s, len(got)) {
 				break
 			}
 			var r pageRow
 			var ok bool
 			pr.setInCall(s, true)
-			if s.consumer == pageConsScan {
+			if consumer == pageConsScan {
 				ok = iter.Scan(&r.id, &r.v)
 			} else {
 				m := map[string]interface{}{}
@@ -802,7 +898,7 @@ func (pr *pageRun) runQuery(t *kernel.Task, sess *gocql.Session, s *pageScript) 
 		err = iter.Close()
 	case pageConsScanner:
 		sc := iter.Scanner()
-		for !runaway() {
+		for more() {
 			if !pr.rowStep(t, s, len(got)) {
 				break
 			}
@@ -843,12 +939,19 @@ func (pr *pageRun) runQuery(t *kernel.Task, sess *gocql.Session, s *pageScript) 
 	if s.manual && complete && err == nil {
 		pr.checkIterState(s, iter, -1)
 	}
-	k.Rec("end %s rows=%d complete=%v %s", s.token, len(got), complete, ErrClass(err))
-	pr.verdict(s, got, err, complete)
+	k.Rec("end %s x%d rows=%d complete=%v abandoned=%v %s", s.token, g.idx+1, len(got), complete, abandoned, ErrClass(err))
+	clean := pr.verdict(s, g, consumer, got, err, complete)
 	if complete {
 		k.OpDone()
 	}
-	return complete
+	if clean && g.idx > 0 {
+		if s.abandonAt > 0 {
+			k.Probe("query-object-re-executed-after-abandoned-iteration")
+		} else {
+			k.Probe("query-object-re-executed")
+		}
+	}
+	return complete || abandoned
 }
 
 // checkIterState checks the documented accessors after row idx (index into s.expect) was
@@ -886,9 +989,14 @@ func (pr *pageRun) checkIterState(s *pageScript, iter *gocql.Iter, idx int) {
 	}
 }
 
-// verdict is the client-side oracle for one finished (or abandoned) iteration.
-func (pr *pageRun) verdict(s *pageScript, got []pageRow, err error, complete bool) {
+// verdict is the client-side oracle for one finished (or abandoned) iteration; clean = the
+// iteration ran to its end without an error and returned the whole result.
+func (pr *pageRun) verdict(s *pageScript, g *pageExec, consumer int, got []pageRow, err error, complete bool) (clean bool) {
 	k := pr.k
+	name := s.token
+	if g.idx > 0 {
+		name += fmt.Sprintf(", execution %d of the same Query value", g.idx+1)
+	}
 	index := map[string]int{}
 	for i, r := range s.expect {
 		index[r.v] = i
@@ -907,7 +1015,7 @@ func (pr *pageRun) verdict(s *pageScript, got []pageRow, err error, complete boo
 	for i, r := range got {
 		j, ok := index[r.v]
 		if !ok || s.expect[j].id != r.id {
-			k.Violate("C15", "C15/wrong-row-value", "query %s (%s): row %d returned to the consumer is (id=%d, v=%q), which the node never sent for this query; rows: %s", s.token, s.describe(), i, r.id, r.v, show())
+			k.Violate("C15", "C15/wrong-row-value", "query %s (%s): row %d returned to the consumer is (id=%d, v=%q), which the node never sent for this query; rows: %s", name, s.describe(), i, r.id, r.v, show())
 			return
 		}
 		idx[i] = j
@@ -915,20 +1023,20 @@ func (pr *pageRun) verdict(s *pageScript, got []pageRow, err error, complete boo
 	seenAt := map[int]int{}
 	for i, j := range idx {
 		if at, dup := seenAt[j]; dup {
-			k.Violate("C15", "C15/row-duplicated", "query %s (%s): row %q was returned twice (positions %d and %d); rows: %s", s.token, s.describe(), s.expect[j].v, at, i, show())
+			k.Violate("C15", "C15/row-duplicated", "query %s (%s): row %q was returned twice (positions %d and %d); rows: %s", name, s.describe(), s.expect[j].v, at, i, show())
 			return
 		}
 		seenAt[j] = i
 	}
 	for i := 1; i < len(idx); i++ {
 		if idx[i] < idx[i-1] {
-			k.Violate("C15", "C15/row-out-of-order", "query %s (%s): row %q was returned after row %q; rows: %s", s.token, s.describe(), s.expect[idx[i]].v, s.expect[idx[i-1]].v, show())
+			k.Violate("C15", "C15/row-out-of-order", "query %s (%s): row %q was returned after row %q; rows: %s", name, s.describe(), s.expect[idx[i]].v, s.expect[idx[i-1]].v, show())
 			return
 		}
 	}
 	for i, j := range idx {
 		if j != i {
-			k.Violate("C15", "C15/row-missing", "query %s (%s): row %q was skipped (position %d holds %q); rows: %s", s.token, s.describe(), s.expect[i].v, i, s.expect[j].v, show())
+			k.Violate("C15", "C15/row-missing", "query %s (%s): row %q was skipped (position %d holds %q); rows: %s", name, s.describe(), s.expect[i].v, i, s.expect[j].v, show())
 			return
 		}
 	}
@@ -937,17 +1045,17 @@ func (pr *pageRun) verdict(s *pageScript, got []pageRow, err error, complete boo
 		return // the workload was stopped: a prefix is all that can be demanded
 	}
 	pr.mu.Lock()
-	failedPage, latePage, reqLog := s.failedPage, s.latePage, s.reqLog
+	failedPage, latePage, reqLog := g.failedPage, g.latePage, g.reqLog
 	pr.mu.Unlock()
 	if err == nil {
 		if len(got) < len(s.expect) {
 			switch {
 			case failedPage >= 0:
-				k.Violate("C15", "C15/fetch-error-swallowed", "query %s (%s): the fetch of page %d failed, yet the iteration ended without an error after %d of %d rows", s.token, s.describe(), failedPage, len(got), len(s.expect))
+				k.Violate("C15", "C15/fetch-error-swallowed", "query %s (%s): the fetch of page %d failed, yet the iteration ended without an error after %d of %d rows", name, s.describe(), failedPage, len(got), len(s.expect))
 			case latePage >= 0:
-				k.Violate("C15", "C15/fetch-error-swallowed", "query %s (%s): the reply for page %d came only after the request timeout, yet the iteration ended without an error after %d of %d rows", s.token, s.describe(), latePage, len(got), len(s.expect))
+				k.Violate("C15", "C15/fetch-error-swallowed", "query %s (%s): the reply for page %d came only after the request timeout, yet the iteration ended without an error after %d of %d rows", name, s.describe(), latePage, len(got), len(s.expect))
 			default:
-				k.Violate("C15", "C15/early-normal-end", "query %s (%s): the iteration ended without an error after %d of %d rows; pages requested: %s", s.token, s.describe(), len(got), len(s.expect), reqLog)
+				k.Violate("C15", "C15/early-normal-end", "query %s (%s): the iteration ended without an error after %d of %d rows; pages requested: %s", name, s.describe(), len(got), len(s.expect), reqLog)
 			}
 			return
 		}
@@ -964,10 +1072,10 @@ func (pr *pageRun) verdict(s *pageScript, got []pageRow, err error, complete boo
 				}
 			}
 			if len(s.pages) > 1 {
-				k.Probe("multi-page-complete:" + pageConsNames[s.consumer])
+				k.Probe("multi-page-complete:" + pageConsNames[consumer])
 			}
 		}
-		return
+		return true
 	}
 	// the iteration reported an error
 	if failedPage >= 0 {
@@ -975,7 +1083,7 @@ func (pr *pageRun) verdict(s *pageScript, got []pageRow, err error, complete boo
 		if !s.manual && failedPage > 0 {
 			before = s.cumEnd[failedPage-1]
 		}
-		if s.consumer != pageConsSliceMap {
+		if consumer != pageConsSliceMap {
 			if len(got) == before {
 				k.Probe("rows-before-failed-page-all-delivered")
 			} else {
@@ -984,8 +1092,9 @@ func (pr *pageRun) verdict(s *pageScript, got []pageRow, err error, complete boo
 		}
 	}
 	if !pr.faults && ErrClass(err) != "timeout" {
-		k.Violate("C15", "C15/spurious-error", "query %s (%s): no fault was injected, no reply was late, yet the iteration failed after %d rows with: %v", s.token, s.describe(), len(got), err)
+		k.Violate("C15", "C15/spurious-error", "query %s (%s): no fault was injected, no reply was late, yet the iteration failed after %d rows with: %v", name, s.describe(), len(got), err)
 	}
+	return false
 }
 
 // ---------------------------------------------------------------------------------
